@@ -26,6 +26,8 @@ func runC11(c *Ctx) {
 	c.rule("R11.4", "transport/local failures return the zero value and a non-nil wrapping client error")
 	c.rule("R11.5", "the reply encoder produces its bytes only through encoding/json (error messages cannot break the reply's well-formedness)")
 	c.encoderUsesJSON("R11.5")
+	c.rule("R11.6", "everything written to a message writer is produced by encoding/json (or is a constant framing byte, or forwarded by a writer wrapper): no hand-formatted reply")
+	c.writerBytesJSON("R11.6")
 	if !c.need("R11.1", "T_rpcerr / FN_disp / T_resp", r.TRPCErr != nil && r.FnDisp != nil && r.TResp != nil) {
 		return
 	}
@@ -451,5 +453,83 @@ func (c *Ctx) encoderUsesJSON(rule string) {
 	})
 	if n == 0 {
 		c.und(rule, fname(m)+": returns", p.pos(m.Pos()), "no return found")
+	}
+}
+
+// writerBytesJSON: every use of an io.Writer / io.WriteCloser value in the library's own package is
+// one of: json.NewEncoder(w); w.Write of a constant (batch framing), of bytes returned by
+// json.Marshal, or of the parameter of an enclosing Write method (a writer wrapper forwarding). A
+// reply formatted by hand (fmt.Fprintf with %q, io.WriteString, string concatenation) is JSON for
+// ordinary text only: Go quoting emits \x1b, \a, \v, \U000e0001, which JSON does not know, so
+// an error message with such a character reaches the caller as a decode error, or — over
+// WebSocket — as a dropped frame and a call that never returns.
+func (c *Ctx) writerBytesJSON(rule string) {
+	p := c.P
+	isW := func(t types.Type) bool { return isNamed(t, "io", "Writer") || isNamed(t, "io", "WriteCloser") }
+	jsonBytes := func(v ssa.Value) bool {
+		return c.allOrigins(v, func(a apath) bool {
+			if len(a.Fields) != 0 {
+				return false
+			}
+			switch x := a.Root.(type) {
+			case *ssa.Const:
+				return true
+			case *ssa.Convert:
+				_, isK := x.X.(*ssa.Const)
+				return isK
+			case *ssa.Parameter:
+				f := x.Parent()
+				return f.Name() == "Write" && f.Signature.Recv() != nil
+			case *ssa.Extract:
+				call, ok := x.Tuple.(*ssa.Call)
+				if !ok || x.Index != 0 {
+					return false
+				}
+				n := calleeName(call)
+				return n == "encoding/json.Marshal" || n == "encoding/json.MarshalIndent"
+			}
+			return false
+		})
+	}
+	n := 0
+	for _, fn := range p.Funcs {
+		if pkgOf(fn) != p.Root.Pkg {
+			continue
+		}
+		allInstrs(fn, func(in ssa.Instruction) {
+			ci, ok := in.(ssa.CallInstruction)
+			if !ok {
+				return
+			}
+			cm := ci.Common()
+			construct := fmt.Sprintf("%s: bytes written to a message writer", fname(fn))
+			if cm.IsInvoke() {
+				if !isW(cm.Value.Type()) || cm.Method.Name() != "Write" || len(cm.Args) != 1 {
+					return
+				}
+				n++
+				c.check(jsonBytes(cm.Args[0]), rule, construct, c.ipos(in), "constant, json.Marshal result or forwarded by a writer wrapper", "bytes written to the message writer were not produced by encoding/json: a hand-built reply is not valid JSON for every error message (control characters), so the caller gets a decode error or no reply instead of the handler's error")
+				return
+			}
+			g := staticCallee(ci)
+			if g == nil || p.allFns[g] {
+				return // calls inside the tree hand the writer on; its uses there are judged there
+			}
+			uses := false
+			for _, a := range cm.Args {
+				if isW(a.Type()) {
+					uses = true
+				}
+			}
+			if !uses {
+				return
+			}
+			n++
+			nm := calleeName(ci)
+			c.check(nm == "encoding/json.NewEncoder", rule, construct, c.ipos(in), "json.NewEncoder", "the message writer is handed to "+nm+": whatever it writes was not produced by encoding/json — a hand-formatted reply (fmt with %q, io.WriteString) is not valid JSON for every error message (\\x1b, \\a, \\v … are Go escapes, not JSON), so the caller gets a decode error or, over WebSocket, no reply at all instead of the handler's error")
+		})
+	}
+	if n == 0 {
+		c.und(rule, "message writer uses", "-", "no use of an io.Writer found in the library package")
 	}
 }
